@@ -1,0 +1,240 @@
+//go:build verif
+
+package sys
+
+/*
+Simulated-disk seam for deterministic simulation (build tag verif only).
+
+With the tag on, and only when env VERIF_SIM names a scenario file, ReadFile and WriteFile work on an
+in-memory disk loaded from the scenario, apply the scenario's fault plan, and append one JSON line per
+call to the scenario's event log. Without VERIF_SIM the real file system is used as always.
+*/
+
+import (
+	"encoding/base64"
+	"encoding/json"
+	"fmt"
+	"os"
+	"path/filepath"
+
+	"github.com/karino2/folang/pkg/frt"
+)
+
+const verifOn = true
+
+// VerifNow is simulated time (set by the instrumented program); used only to stamp log lines.
+var VerifNow func() int64
+
+type verifFault struct {
+	Op    string `json:"op"`    // "read" or "write"
+	Nth   int    `json:"nth"`   // 1-based index among the calls of that op
+	Kind  string `json:"kind"`  // read: "error"; write: "error", "enospc"
+	After int    `json:"after"` // enospc: bytes that still fit
+}
+
+type verifFile struct {
+	B64 string `json:"b64"`
+}
+
+type verifScenario struct {
+	Disk struct {
+		Dirs     []string             `json:"dirs"`
+		Files    map[string]verifFile `json:"files"`
+		Capacity int64                `json:"capacity"` // total bytes the disk can hold; 0 = unlimited
+	} `json:"disk"`
+	Faults     []verifFault `json:"faults"`
+	TickBudget int64        `json:"tick_budget"`
+	Log        string       `json:"log"`
+}
+
+var verifSt struct {
+	loaded bool
+	on     bool
+	files  map[string][]byte
+	dirs   map[string]bool
+	cap    int64
+	faults []verifFault
+	budget int64
+	reads  int
+	writes int
+	logf   *os.File
+}
+
+func verifLoad() {
+	verifSt.loaded = true
+	path := os.Getenv("VERIF_SIM")
+	if path == "" {
+		return
+	}
+	raw, err := os.ReadFile(path)
+	if err != nil {
+		fmt.Fprintf(os.Stderr, "verif(sys): cannot read scenario %s: %v\n", path, err)
+		os.Exit(98)
+	}
+	var sc verifScenario
+	if err := json.Unmarshal(raw, &sc); err != nil {
+		fmt.Fprintf(os.Stderr, "verif(sys): bad scenario %s: %v\n", path, err)
+		os.Exit(98)
+	}
+	verifSt.files = map[string][]byte{}
+	verifSt.dirs = map[string]bool{".": true, "/": true}
+	for _, d := range sc.Disk.Dirs {
+		verifSt.dirs[filepath.Clean(d)] = true
+	}
+	for name, f := range sc.Disk.Files {
+		b, err := base64.StdEncoding.DecodeString(f.B64)
+		if err != nil {
+			fmt.Fprintf(os.Stderr, "verif(sys): bad file content for %s: %v\n", name, err)
+			os.Exit(98)
+		}
+		verifSt.files[filepath.Clean(name)] = b
+	}
+	verifSt.cap = sc.Disk.Capacity
+	verifSt.faults = sc.Faults
+	verifSt.budget = sc.TickBudget
+	if sc.Log != "" {
+		f, err := os.OpenFile(sc.Log, os.O_WRONLY|os.O_APPEND|os.O_CREATE, 0644)
+		if err != nil {
+			fmt.Fprintf(os.Stderr, "verif(sys): cannot open log %s: %v\n", sc.Log, err)
+			os.Exit(98)
+		}
+		verifSt.logf = f
+	}
+	verifSt.on = true
+}
+
+func verifActive() bool {
+	if !verifSt.loaded {
+		verifLoad()
+	}
+	return verifSt.on
+}
+
+func verifNow() int64 {
+	if VerifNow != nil {
+		return VerifNow()
+	}
+	return 0
+}
+
+func verifLog(ev map[string]any) {
+	if verifSt.logf == nil {
+		return
+	}
+	line, _ := json.Marshal(ev)
+	verifSt.logf.Write(append(line, '\n'))
+}
+
+func verifFaultFor(op string, nth int) *verifFault {
+	for i := range verifSt.faults {
+		f := &verifSt.faults[i]
+		if f.Op == op && f.Nth == nth {
+			return f
+		}
+	}
+	return nil
+}
+
+// VerifTickBudget is the scenario's step budget (0: none). For the instrumented program's logical clock.
+func VerifTickBudget() int64 {
+	if !verifActive() {
+		return 0
+	}
+	return verifSt.budget
+}
+
+// VerifBudgetExceeded records that the step budget ran out and ends the process with status 97.
+func VerifBudgetExceeded() {
+	verifLog(map[string]any{"t": verifNow(), "op": "budget"})
+	os.Exit(97)
+}
+
+func verifReadFile(file string) frt.Tuple2[string, bool] {
+	verifSt.reads++
+	p := filepath.Clean(file)
+	ev := map[string]any{"t": verifNow(), "op": "read", "i": verifSt.reads, "path": p}
+	if f := verifFaultFor("read", verifSt.reads); f != nil {
+		ev["ok"] = false
+		ev["fault"] = "read_" + f.Kind
+		verifLog(ev)
+		return frt.NewTuple2("", false)
+	}
+	b, ok := verifSt.files[p]
+	if !ok {
+		ev["ok"] = false
+		if verifSt.dirs[p] {
+			ev["why"] = "is_dir"
+		} else {
+			ev["why"] = "missing"
+		}
+		verifLog(ev)
+		return frt.NewTuple2("", false)
+	}
+	ev["ok"] = true
+	ev["n"] = len(b)
+	verifLog(ev)
+	return frt.NewTuple2(string(b), true)
+}
+
+func verifUsed() int64 {
+	var n int64
+	for _, b := range verifSt.files {
+		n += int64(len(b))
+	}
+	return n
+}
+
+func verifWriteFile(file string, content string) bool {
+	verifSt.writes++
+	p := filepath.Clean(file)
+	ev := map[string]any{"t": verifNow(), "op": "write", "i": verifSt.writes, "path": p, "len": len(content), "stored": -1}
+	fail := func(why string) bool {
+		ev["ok"] = false
+		ev["why"] = why
+		verifLog(ev)
+		return false
+	}
+	f := verifFaultFor("write", verifSt.writes)
+	if f != nil && f.Kind == "error" {
+		// like a failed open: nothing is touched.
+		ev["fault"] = "write_error"
+		return fail("injected")
+	}
+	if verifSt.dirs[p] {
+		return fail("is_dir")
+	}
+	if !verifSt.dirs[filepath.Dir(p)] {
+		return fail("no_parent")
+	}
+	// open succeeded: the file is truncated first, like os.WriteFile.
+	verifSt.files[p] = []byte{}
+	fits := int64(len(content))
+	why := ""
+	if f != nil && f.Kind == "enospc" {
+		ev["fault"] = "write_enospc"
+		if int64(f.After) < fits {
+			fits = int64(f.After)
+			why = "injected"
+		}
+	}
+	if verifSt.cap > 0 {
+		if free := verifSt.cap - verifUsed(); free < fits {
+			if free < 0 {
+				free = 0
+			}
+			fits = free
+			why = "disk_full"
+			ev["fault"] = "capacity"
+		}
+	}
+	stored := []byte(content[:fits])
+	verifSt.files[p] = stored
+	ev["stored"] = len(stored)
+	ev["data"] = base64.StdEncoding.EncodeToString(stored)
+	if why != "" {
+		return fail(why)
+	}
+	ev["ok"] = true
+	verifLog(ev)
+	return true
+}
